@@ -73,19 +73,20 @@ type Event struct {
 }
 
 type Obs struct {
-	Log          []Entry
-	Events       []Event
-	SpawnLogLen  []int // len(Log) right after each Spawn returned
-	PillDone     map[int]bool
-	BystanderOK  bool
-	ChildPIDs    [][]*actor.PID // per process
-	ChildRegNil  [][]bool       // per death, per child: unregistered when the parent's ActorStoppedEvent was seen
-	TargetRegNil []bool         // per death: the target id was unregistered when its ActorStoppedEvent was seen
-	PID          *actor.PID
-	Senders      []*actor.PID
-	FinalRegNil  bool   // the target id was unregistered when the history ended
-	Overlap      string // non-empty: two invocations of the target's Receive overlapped in time (C02)
-	Diverged     string // non-empty: the run was cut short because the actor contradicted the model
+	Log           []Entry
+	Events        []Event
+	SpawnLogLen   []int // len(Log) right after each Spawn returned
+	PillDone      map[int]bool
+	BystanderOK   bool
+	ChildPIDs     [][]*actor.PID // per process
+	ChildRegNil   [][]bool       // per death, per child: unregistered when the parent's ActorStoppedEvent was seen
+	TargetRegNil  []bool         // per death: the target id was unregistered when its ActorStoppedEvent was seen
+	PID           *actor.PID
+	Senders       []*actor.PID
+	FinalRegNil   bool   // the target id was unregistered when the history ended
+	SpawnDeathReg []bool // per Spawn during which the actor died of max-restarts: was the id still registered when Spawn returned
+	Overlap       string // non-empty: two invocations of the target's Receive overlapped in time (C02)
+	Diverged      string // non-empty: the run was cut short because the actor contradicted the model
 }
 
 type world struct {
@@ -505,6 +506,7 @@ func Run(spec Spec, waitOrphans bool) (*Obs, *Sim, error) {
 	producer := func() actor.Receiver {
 		return &rcv{w: w, inc: int(w.incs.Add(1))}
 	}
+	spawnDiverged := ""
 	spawn := func(first bool) {
 		w.firstSpawn = first
 		w.mu.Lock()
@@ -547,6 +549,16 @@ func Run(spec Spec, waitOrphans bool) (*Obs, *Sim, error) {
 		obs.SpawnLogLen = append(obs.SpawnLogLen, len(w.log))
 		w.mu.Unlock()
 		sim.Spawn(first)
+		if !sim.Alive {
+			// The actor exhausted its restart budget inside its own start-up.  All of that - the
+			// panics, ActorMaxRestartsExceededEvent, the clean-up - runs synchronously on the goroutine
+			// that called Spawn, so the registry can be judged here without waiting for anything.
+			reg := e.Registry.GetPID("target", "1") != nil
+			obs.SpawnDeathReg = append(obs.SpawnDeathReg, reg)
+			if reg {
+				spawnDiverged = "Spawn returned after the actor had exceeded MaxRestarts in its start-up, and the id is still registered"
+			}
+		}
 	}
 	w.pid = actor.NewPID("local", "target/1")
 	spawn(true)
@@ -590,6 +602,9 @@ func Run(spec Spec, waitOrphans bool) (*Obs, *Sim, error) {
 		return nil
 	}
 	drive := func() error {
+		if spawnDiverged != "" {
+			return fmt.Errorf("%w: %s", ErrDiverged, spawnDiverged)
+		}
 		if err := settle(); err != nil {
 			return err
 		}
@@ -657,6 +672,9 @@ func Run(spec Spec, waitOrphans bool) (*Obs, *Sim, error) {
 					return err
 				}
 				spawn(false)
+				if spawnDiverged != "" {
+					return fmt.Errorf("%w: %s", ErrDiverged, spawnDiverged)
+				}
 			default:
 				return fmt.Errorf("harness: unknown op %q", op.K)
 			}
